@@ -50,9 +50,12 @@ def dy(rng, den=256, kmax=256):
     return rng.randint(-kmax, kmax) / den
 
 
-def make_opts(kind):
+def make_opts(kind, rng=None):
     """options for trials.make: float-orthogonal MO rotations for the CI kinds that carry one (exactly
-    orthogonal dyadic matrices with +-1/2 entries produce exact pivot ties and spin-pure references)"""
+    orthogonal dyadic matrices with +-1/2 entries produce exact pivot ties and spin-pure references);
+    determinant lists get an arbitrary (non-aufbau) reference determinant half of the time"""
+    if kind == "multislater" and rng is not None:
+        return {"reference": rng.choice(["aufbau", "random"])}
     return {"mo": "qr"} if kind in ("UCISD", "ucisd", "GCISD") else {}
 
 
